@@ -7,6 +7,7 @@ import (
 	"io"
 	"io/ioutil"
 	"os"
+	"sort"
 	"strconv"
 	"strings"
 
@@ -516,6 +517,9 @@ func parseServiceConfig(configs map[string]ServiceConfig) []network.ServiceIdent
 		}
 	}
 
+	// map iteration order must not leak into the identity (the roster id
+	// covers the service keys in slice order)
+	sort.Sort(network.ServiceIdentities(si))
 	return si
 }
 
@@ -534,6 +538,8 @@ func parseServerServiceConfig(configs map[string]ServerServiceConfig) []network.
 		}
 	}
 
+	// same order on every parse: sorted by service name
+	sort.Sort(network.ServiceIdentities(si))
 	return si
 }
 
